@@ -1,5 +1,4 @@
 import Aiorpcx.C13.Step
-import Aiorpcx.Facts.C13
 /-!
 # C13 — property theorems for the concurrency limiter
 
@@ -9,6 +8,12 @@ Model: `Aiorpcx.C13.step` (Model.lean) = what `Concurrency.__aenter__/__aexit__/
 operation lists (every interleaving of entries, exits, cancelled waiters and limit changes) — no
 bound.  The semaphore's FIFO wake-up and cancel-safety are assumed laws of asyncio (trusted base),
 exercised by the correspondence.
+
+The model mirrors the class **as repaired by fixes/F23-limiter-last-permit.diff** (`fixed = true`):
+a refused entrant hands its permit back and `__aexit__` never retires the last permit.  All
+theorems therefore hold for **all** targets, also ≤ 0.  The pinned class (`initPinned`,
+`fixed = false`) loses the permit of a refused entrant and retires capacity down to 0, after which
+nobody can ever enter: see the `*_fails_pinned` witnesses.
 -/
 namespace Aiorpcx.C13
 
@@ -26,13 +31,24 @@ theorem step_exit_bad (s : Lim) (i : Nat) (h : i ∉ s.holders) :
     step s (.exit i) = (s, [Ev.bad]) := by
   simp [step, h]
 
-theorem step_exit_retire (s : Lim) (i : Nat) (h : i ∈ s.holders) (hv : s.V > s.T) :
-    step s (.exit i) = ({ s with holders := s.holders.erase i, V := s.V - 1 }, []) := by
-  simp [step, h, hv]
+/-- the retire bound of the repaired class: the target, but never below 1 -/
+def bound (s : Lim) : Int := max s.T 1
 
-theorem step_exit_release (s : Lim) (i : Nat) (h : i ∈ s.holders) (hv : ¬ s.V > s.T) :
+theorem retireBound_fixed (s : Lim) (h : s.fixed = true) (l : List Nat) :
+    retireBound { s with holders := l } = bound s := by
+  simp [retireBound, bound, h]
+
+theorem step_exit_retire (s : Lim) (hf : s.fixed = true) (i : Nat) (h : i ∈ s.holders)
+    (hv : s.V > bound s) :
+    step s (.exit i) = ({ s with holders := s.holders.erase i, V := s.V - 1 }, []) := by
+  simp only [step, h, ↓reduceIte, retireBound_fixed s hf]
+  simp [hv]
+
+theorem step_exit_release (s : Lim) (hf : s.fixed = true) (i : Nat) (h : i ∈ s.holders)
+    (hv : ¬ s.V > bound s) :
     step s (.exit i) = finish (release ⟨{ s with holders := s.holders.erase i }, [], []⟩) := by
-  simp [step, h, hv]
+  simp only [step, h, ↓reduceIte, retireBound_fixed s hf]
+  simp [hv]
 
 theorem step_cancel (s : Lim) (i : Nat) (h : i ∈ s.waiters) :
     step s (.cancelWaiter i) = ({ s with waiters := s.waiters.erase i }, [Ev.cancelled i]) := by
@@ -50,7 +66,7 @@ def Op.isSetTarget : Op → Bool
 
 /-- 1 when the op is the exit of a holder that retires a unit of excess capacity -/
 def retires (s : Lim) : Op → Int
-  | .exit i => if i ∈ s.holders ∧ s.V > s.T then 1 else 0
+  | .exit i => if i ∈ s.holders ∧ s.V > bound s then 1 else 0
   | _ => 0
 
 /-- everything one step does, in one place (used by all the theorems below) -/
@@ -58,10 +74,7 @@ structure StepFacts (s : Lim) (op : Op) (r : Lim × List Ev) : Prop where
   inv : Inv r.1
   T : op.isSetTarget = false → r.1.T = s.T
   V_le : op.isSetTarget = false → r.1.V ≤ max s.V s.T
-  V_same : op.isSetTarget = false → s.T ≤ s.V →
-    r.1.V = s.V - retires s op
-  L_pos : op.isSetTarget = false → 0 < s.T → r.1.leaked = s.leaked
-  V_lb : op.isSetTarget = false → min s.V (max s.T 0) ≤ r.1.V
+  V_same : op.isSetTarget = false → s.T ≤ s.V → r.1.V = s.V - retires s op
 
 theorem erase_mem_length (l : List Nat) (i : Nat) (h : i ∈ l) :
     ((l.erase i).length : Int) = l.length - 1 := by
@@ -69,60 +82,64 @@ theorem erase_mem_length (l : List Nat) (i : Nat) (h : i ∈ l) :
   have := List.length_pos_of_mem h
   omega
 
+theorem enter_cases (s : Lim) :
+    (s.S = 0 ∨ s.waiters ≠ []) ∨ (s.S ≠ 0 ∧ s.waiters = []) := by
+  by_cases hl : s.S = 0 ∨ s.waiters ≠ []
+  · exact Or.inl hl
+  · right
+    refine ⟨fun hh => hl (Or.inl hh), ?_⟩
+    cases hh : s.waiters with
+    | nil => rfl
+    | cons a b => exact absurd (Or.inr (by simp [hh])) hl
+
 theorem step_facts (s : Lim) (op : Op) (h : Inv s) : StepFacts s op (step s op) := by
   have hS0 := h.S_nonneg
   have hc := h.cons
+  have hvp := h.V_pos
   cases op with
   | enter i =>
-    by_cases hl : s.S = 0 ∨ s.waiters ≠ []
+    rcases enter_cases s with hl | ⟨h1, h2⟩
     · rw [step_enter_wait s i hl]
-      refine ⟨⟨hS0, hc, ?_⟩, fun _ => rfl, fun _ => by dsimp only; omega, fun _ _ => by simp [retires], fun _ _ => rfl,
-        fun _ => by dsimp only; omega⟩
+      refine ⟨⟨hS0, hc, ?_, hvp, h.no_leak, h.fx⟩, fun _ => rfl, fun _ => by dsimp only; omega,
+        fun _ _ => by simp [retires]⟩
       intro _
       rcases hl with hl | hl
       · exact hl
       · exact h.wait_S hl
-    · have h1 : s.S ≠ 0 := fun hh => hl (Or.inl hh)
-      have h2 : s.waiters = [] := by
-        cases hh : s.waiters with
-        | nil => rfl
-        | cons a b => exact absurd (Or.inr (by simp [hh])) hl
-      rw [step_enter_now s i h1 h2]
+    · rw [step_enter_now s i h1 h2]
       have e := enter_now_spec s i h h1 h2
-      refine ⟨e.inv, fun _ => e.T, fun _ => e.V_le, ?_, ?_, ?_⟩
-      · intro _ hTV
-        have := e.V_le; have := e.V_ge
-        simp only [retires]; omega
-      · intro _ hT; exact (e.pos hT).2.2
-      · intro _; have := e.V_ge; omega
+      refine ⟨e.inv, fun _ => e.T, fun _ => e.V_le, ?_⟩
+      intro _ hTV
+      have := e.V_le; have := e.V_ge
+      simp only [retires]; omega
   | exit i =>
     by_cases hi : i ∈ s.holders
-    · by_cases hv : s.V > s.T
-      · rw [step_exit_retire s i hi hv]
+    · by_cases hv : s.V > bound s
+      · rw [step_exit_retire s h.fx i hi hv]
         have := erase_mem_length s.holders i hi
-        refine ⟨⟨hS0, by dsimp only; omega, h.wait_S⟩, fun _ => rfl, fun _ => by dsimp only; omega, ?_,
-          fun _ _ => rfl, fun _ => by dsimp only; omega⟩
+        have hb : bound s ≥ 1 := by unfold bound; omega
+        refine ⟨⟨hS0, by dsimp only; omega, h.wait_S, by dsimp only; omega, h.no_leak, h.fx⟩,
+          fun _ => rfl, fun _ => by dsimp only; omega, ?_⟩
         intro _ _; simp [retires, hi, hv]
-      · rw [step_exit_release s i hi hv]
+      · rw [step_exit_release s h.fx i hi hv]
         have e := exit_release_spec s i h hi
-        refine ⟨e.inv, fun _ => e.T, fun _ => e.V_le, ?_, fun _ hT => e.L_pos hT, ?_⟩
-        · intro _ hTV; rw [e.V_same hTV]; simp [retires, hv]
-        · intro _; have := e.V_ge; omega
+        refine ⟨e.inv, fun _ => e.T, fun _ => e.V_le, ?_⟩
+        intro _ hTV; rw [e.V_same hTV]; simp [retires, hv]
     · rw [step_exit_bad s i hi]
-      exact ⟨h, fun _ => rfl, fun _ => by dsimp only; omega, fun _ _ => by simp [retires, hi], fun _ _ => rfl, fun _ => by dsimp only; omega⟩
+      exact ⟨h, fun _ => rfl, fun _ => by dsimp only; omega, fun _ _ => by simp [retires, hi]⟩
   | cancelWaiter i =>
     by_cases hi : i ∈ s.waiters
     · rw [step_cancel s i hi]
-      refine ⟨⟨hS0, hc, ?_⟩, fun _ => rfl, fun _ => by dsimp only; omega, fun _ _ => by simp [retires], fun _ _ => rfl,
-        fun _ => by dsimp only; omega⟩
+      refine ⟨⟨hS0, hc, ?_, hvp, h.no_leak, h.fx⟩, fun _ => rfl, fun _ => by dsimp only; omega,
+        fun _ _ => by simp [retires]⟩
       intro _
       exact h.wait_S (by intro h0; rw [h0] at hi; simp at hi)
     · rw [step_cancel_bad s i hi]
-      exact ⟨h, fun _ => rfl, fun _ => by dsimp only; omega, fun _ _ => by simp [retires], fun _ _ => rfl, fun _ => by dsimp only; omega⟩
+      exact ⟨h, fun _ => rfl, fun _ => by dsimp only; omega, fun _ _ => by simp [retires]⟩
   | setTarget n =>
     rw [step_setTarget]
-    exact ⟨⟨hS0, hc, h.wait_S⟩, by simp [Op.isSetTarget], by simp [Op.isSetTarget],
-      by simp [Op.isSetTarget], by simp [Op.isSetTarget], by simp [Op.isSetTarget]⟩
+    exact ⟨⟨hS0, hc, h.wait_S, hvp, h.no_leak, h.fx⟩, by simp [Op.isSetTarget],
+      by simp [Op.isSetTarget], by simp [Op.isSetTarget]⟩
 
 theorem step_inv (s : Lim) (op : Op) (h : Inv s) : Inv (step s op).1 := (step_facts s op h).inv
 
@@ -131,59 +148,38 @@ theorem run_inv (ops : List Op) : ∀ (s : Lim), Inv s → Inv (run s ops).1 := 
   | nil => intro s h; exact h
   | cons op ops ih => intro s h; exact ih _ (step_inv s op h)
 
-theorem step_pos (s : Lim) (op : Op) (h : Inv s) (p : Pos s)
-    (hop : ∀ n, op = .setTarget n → 1 ≤ n) : Pos (step s op).1 := by
-  have f := step_facts s op h
-  cases op with
-  | setTarget n =>
-    rw [step_setTarget]
-    exact ⟨hop n rfl, p.V_pos, p.no_leak⟩
-  | enter i =>
-    have hT := f.T rfl; have hL := f.L_pos rfl (by have := p.T_pos; omega)
-    have hV := f.V_lb rfl
-    exact ⟨by rw [hT]; exact p.T_pos, by have := p.T_pos; have := p.V_pos; omega, by rw [hL]; exact p.no_leak⟩
-  | exit i =>
-    have hT := f.T rfl; have hL := f.L_pos rfl (by have := p.T_pos; omega)
-    have hV := f.V_lb rfl
-    exact ⟨by rw [hT]; exact p.T_pos, by have := p.T_pos; have := p.V_pos; omega, by rw [hL]; exact p.no_leak⟩
-  | cancelWaiter i =>
-    have hT := f.T rfl; have hL := f.L_pos rfl (by have := p.T_pos; omega)
-    have hV := f.V_lb rfl
-    exact ⟨by rw [hT]; exact p.T_pos, by have := p.T_pos; have := p.V_pos; omega, by rw [hL]; exact p.no_leak⟩
-
-theorem run_pos (ops : List Op) : ∀ (s : Lim), Inv s → Pos s → targetsGE1 ops → Pos (run s ops).1 := by
-  induction ops with
-  | nil => intro s _ p _; exact p
-  | cons op ops ih =>
-    intro s h p ht
-    have hop : ∀ n, op = .setTarget n → 1 ≤ n := by
-      intro n hn; subst hn; exact ht.1
-    have ht' : targetsGE1 ops := by
-      cases op <;> first | exact ht | exact ht.2
-    exact ih _ (step_inv s op h) (step_pos s op h p hop) ht'
-
 /-! ## the property -/
 
-/-- **Permits are neither lost nor duplicated** (limits of at least 1): after any sequence of
-entries, exits, cancelled waiters and `set_target(n ≥ 1)` on a `Concurrency(n ≥ 1)`, the free
-permits plus the holders are exactly the represented capacity, which never drops below 1; nothing
-has leaked.  (The statement is about every op list, hence about every prefix = every moment.) -/
-theorem permit_conservation (n : Nat) (hn : 1 ≤ n) (ops : List Op) (ht : targetsGE1 ops) :
+/-- **Permits are neither lost nor duplicated** — for **every** sequence of entries, exits,
+cancelled waiters and `set_target(n)` with *any* `n` (also zero and negative) on a
+`Concurrency(n)` with *any* initial limit, and however many entrants were refused: the free permits plus the holders
+are exactly the represented capacity (no permit is lost by a refusal), and at least one permit
+always stays in circulation (`V ≥ 1`).  (The statement is about every op list, hence about every
+prefix = every moment.) -/
+theorem permit_conservation (n : Int) (ops : List Op) :
     let s := (run (init n) ops).1
     s.S + s.holders.length = s.V ∧ 0 ≤ s.S ∧ 1 ≤ s.V ∧ s.leaked = 0 := by
   have i := run_inv ops _ (init_inv n)
-  have p := run_pos ops _ (init_inv n) (init_pos n hn) ht
-  have := i.cons
-  refine ⟨by rw [p.no_leak] at this; simpa using this, i.S_nonneg, p.V_pos, p.no_leak⟩
+  exact ⟨i.cons, i.S_nonneg, i.V_pos, i.no_leak⟩
 
-/-- The general accounting, valid for *all* targets (also ≤ 0, which only C14's recalculation
-produces): a permit is missing from `S + |holders|` exactly for every refused entrant — the code
-does not give the permit back when `_retarget_semaphore` raises. -/
-theorem permit_accounting (n : Nat) (ops : List Op) :
-    let s := (run (init n) ops).1
-    s.S + s.holders.length + s.leaked = s.V ∧ 0 ≤ s.S :=
-  let i := run_inv ops _ (init_inv n)
-  ⟨i.cons, i.S_nonneg⟩
+/-- the full statement as a predicate of the start state (used for the pinned witness) -/
+def permit_conservation_full (start : Lim) : Prop :=
+  ∀ ops : List Op, let s := (run start ops).1
+    s.S + s.holders.length = s.V ∧ 1 ≤ s.V
+
+theorem permit_conservation_repaired (n : Int) : permit_conservation_full (init n) :=
+  fun ops => ⟨(permit_conservation n ops).1, (permit_conservation n ops).2.2.1⟩
+
+/-- **F23 (pinned class)**: a refused entrant keeps the permit it acquired (`1 t0 e0`: S = 0,
+no holder, V = 1), and the last permit is retired at target 0 (`1 e0 t0 x0`: V = 0). -/
+theorem permit_conservation_fails_pinned : ¬ permit_conservation_full (initPinned 1) := by
+  intro h
+  have := (h [.setTarget 0, .enter 0]).1
+  revert this
+  decide
+
+theorem last_permit_retired_pinned :
+    (run (initPinned 1) [.enter 0, .setTarget 0, .exit 0]).1.V = 0 := by decide
 
 theorem run_bound (ops : List Op) : ∀ (s : Lim) (m : Int), Inv s → s.V ≤ m → s.T ≤ m →
     (run s ops).1.V ≤ maxTarget m ops ∧ (run s ops).1.T ≤ maxTarget m ops := by
@@ -212,11 +208,13 @@ theorem run_bound (ops : List Op) : ∀ (s : Lim) (m : Int), Inv s → s.V ≤ m
       exact ih _ _ f.inv (by omega) (by omega)
 
 /-- **The number of holders never exceeds the largest limit that has been in force** (the
-initial one and every `set_target` so far) — for all op lists, all targets. -/
-theorem never_exceeds_max_target (n : Nat) (ops : List Op) :
-    ((run (init n) ops).1.holders.length : Int) ≤ maxTarget n ops := by
+initial one and every `set_target` so far; an initial limit ≤ 0 admits nobody, the bound then
+starts at 1) — for all op lists, all targets. -/
+theorem never_exceeds_max_target (n : Int) (ops : List Op) :
+    ((run (init n) ops).1.holders.length : Int) ≤ maxTarget (max n 1) ops := by
   have i := run_inv ops _ (init_inv n)
-  have b := run_bound ops (init n) n (init_inv n) (by simp [init]) (by simp [init])
+  have b := run_bound ops (init n) (max n 1) (init_inv n) (by simp only [init]; omega)
+    (by simp only [init]; omega)
   have := i.cons; have := i.S_nonneg
   omega
 
@@ -235,61 +233,74 @@ def noSetTarget : List Op → Prop
   | op :: ops => op.isSetTarget = false ∧ noSetTarget ops
 
 theorem reduction_run (ops : List Op) : ∀ (s : Lim), Inv s → s.T ≤ s.V → noSetTarget ops →
-    (run s ops).1.V = max s.T (s.V - exitsDone s ops) ∧ (run s ops).1.T = s.T := by
+    (run s ops).1.V = max (bound s) (s.V - exitsDone s ops) ∧ (run s ops).1.T = s.T := by
   induction ops with
-  | nil => intro s _ htv _; refine ⟨?_, rfl⟩; simp only [run, exitsDone]; omega
+  | nil =>
+    intro s h htv _; refine ⟨?_, rfl⟩
+    have := h.V_pos
+    simp only [run, exitsDone, bound]; omega
   | cons op ops ih =>
     intro s h htv hno
     have f := step_facts s op h
     have hT := f.T hno.1
     have hV := f.V_same hno.1 htv
+    have hvp := h.V_pos
+    have hb : bound (step s op).1 = bound s := by unfold bound; rw [hT]
     simp only [run, exitsDone]
     cases op with
     | setTarget n => exact absurd hno.1 (by simp [Op.isSetTarget])
     | enter i =>
       simp only [retires] at hV
       have := ih _ f.inv (by omega) hno.2
+      rw [hb] at this
       simp only [effExit]
       omega
     | cancelWaiter i =>
       simp only [retires] at hV
       have := ih _ f.inv (by omega) hno.2
+      rw [hb] at this
       simp only [effExit]
       omega
     | exit i =>
       simp only [retires] at hV
       simp only [effExit]
+      have hbd : bound s = max s.T 1 := rfl
       by_cases hi : i ∈ s.holders
-      · by_cases hv : s.V > s.T
+      · by_cases hv : s.V > bound s
         · simp only [hi, hv, and_self, ↓reduceIte] at hV
           have := ih _ f.inv (by omega) hno.2
+          rw [hb] at this
           simp only [hi, ↓reduceIte]
           omega
         · simp only [hi, hv, and_false, ↓reduceIte] at hV
           have := ih _ f.inv (by omega) hno.2
+          rw [hb] at this
           simp only [hi, ↓reduceIte]
           omega
       · simp only [hi, false_and, ↓reduceIte] at hV
         have := ih _ f.inv (by omega) hno.2
+        rw [hb] at this
         simp only [hi, ↓reduceIte]
         omega
 
 /-- **A lowered limit retires one excess permit per exit and then holds.**  From any reachable
-state with capacity `V₀`, after `set_target(n)` with `n ≤ V₀` and any further operations other than
-`set_target` among which `k` holders left, the capacity is exactly `max n (V₀ − k)`; hence once
-`V₀ − n` handlers have completed the number of holders is at most `n` (until the next raise). -/
+state with capacity `V₀`, after `set_target(n)` with `n ≤ V₀` (any `n`, also ≤ 0) and any further
+operations other than `set_target` among which `k` holders left, the capacity is exactly
+`max (max n 1) (V₀ − k)` — the last permit is never retired; hence once `V₀ − n` handlers have
+completed the number of holders is at most `max n 1` (until the next raise), i.e. at most `n` for
+every limit of at least 1. -/
 theorem reduction_takes_effect (s : Lim) (h : Inv s) (n : Int) (hn : n ≤ s.V) (ops : List Op)
     (hno : noSetTarget ops) :
     let s' := (run (step s (.setTarget n)).1 ops).1
     let k := exitsDone (step s (.setTarget n)).1 ops
-    s'.V = max n (s.V - k) ∧ (s'.holders.length : Int) ≤ max n (s.V - k) ∧
-    (s.V - n ≤ k → (s'.holders.length : Int) ≤ n) := by
+    s'.V = max (max n 1) (s.V - k) ∧ (s'.holders.length : Int) ≤ max (max n 1) (s.V - k) ∧
+    (s.V - n ≤ k → (s'.holders.length : Int) ≤ max n 1) := by
   have hi : Inv (step s (.setTarget n)).1 := step_inv s _ h
   have r := reduction_run ops (step s (.setTarget n)).1 hi (by rw [step_setTarget]; exact hn) hno
   have i' := run_inv ops _ hi
   have := i'.cons; have := i'.S_nonneg
   have hv : (step s (.setTarget n)).1.V = s.V := rfl
-  have ht : (step s (.setTarget n)).1.T = n := rfl
+  have ht : bound (step s (.setTarget n)).1 = max n 1 := rfl
   rw [hv, ht] at r
   refine ⟨r.1, by omega, fun _ => by omega⟩
 
@@ -300,10 +311,10 @@ theorem raise_admits_on_next_entry (s : Lim) (h : Inv s) (hT : 0 < s.T) (op : Op
     (hop : op.isSetTarget = false) (j : Nat) (hj : Ev.entered j ∈ (step s op).2) :
     (step s op).1.V = max s.V s.T ∧
     ((step s op).1.waiters = [] ∨
-      ((step s op).1.holders.length : Int) + (step s op).1.leaked = (step s op).1.V) := by
+      ((step s op).1.holders.length : Int) = (step s op).1.V) := by
   have f := step_facts s op h
   have hfree : (step s op).1.waiters = [] ∨
-      ((step s op).1.holders.length : Int) + (step s op).1.leaked = (step s op).1.V := by
+      ((step s op).1.holders.length : Int) = (step s op).1.V := by
     cases hw : (step s op).1.waiters with
     | nil => exact Or.inl rfl
     | cons a b =>
@@ -317,20 +328,15 @@ theorem raise_admits_on_next_entry (s : Lim) (h : Inv s) (hT : 0 < s.T) (op : Op
     · rw [step_cancel s i hi] at hj; simp at hj
     · rw [step_cancel_bad s i hi] at hj; simp at hj
   | enter i =>
-    by_cases hl : s.S = 0 ∨ s.waiters ≠ []
+    rcases enter_cases s with hl | ⟨h1, h2⟩
     · rw [step_enter_wait s i hl] at hj; simp at hj
-    · have h1 : s.S ≠ 0 := fun hh => hl (Or.inl hh)
-      have h2 : s.waiters = [] := by
-        cases hh : s.waiters with
-        | nil => rfl
-        | cons a b => exact absurd (Or.inr (by simp [hh])) hl
-      rw [step_enter_now s i h1 h2]
+    · rw [step_enter_now s i h1 h2]
       exact ((enter_now_spec s i h h1 h2).pos hT).1
   | exit i =>
     by_cases hi : i ∈ s.holders
-    · by_cases hv : s.V > s.T
-      · rw [step_exit_retire s i hi hv] at hj; simp at hj
-      · rw [step_exit_release s i hi hv] at hj ⊢
+    · by_cases hv : s.V > bound s
+      · rw [step_exit_retire s h.fx i hi hv] at hj; simp at hj
+      · rw [step_exit_release s h.fx i hi hv] at hj ⊢
         have e := exit_release_spec s i h hi
         have hne : s.waiters ≠ [] := by
           intro h0
@@ -365,72 +371,87 @@ theorem fifo_admission (s : Lim) (h : Inv s) (op : Op) :
     · rw [step_cancel s i hi]; exact ⟨rfl, rfl⟩
     · rw [step_cancel_bad s i hi]; exact ⟨rfl, (List.erase_of_not_mem hi).symm⟩
   | enter i =>
-    by_cases hl : s.S = 0 ∨ s.waiters ≠ []
+    rcases enter_cases s with hl | ⟨h1, h2⟩
     · rw [step_enter_wait s i hl]; rfl
-    · have h1 : s.S ≠ 0 := fun hh => hl (Or.inl hh)
-      have h2 : s.waiters = [] := by
-        cases hh : s.waiters with
-        | nil => rfl
-        | cons a b => exact absurd (Or.inr (by simp [hh])) hl
-      rw [step_enter_now s i h1 h2]
+    · rw [step_enter_now s i h1 h2]
       have := (enter_now_spec s i h h1 h2).queue
       simpa [h2] using this
   | exit i =>
     by_cases hi : i ∈ s.holders
-    · by_cases hv : s.V > s.T
-      · rw [step_exit_retire s i hi hv]; rfl
-      · rw [step_exit_release s i hi hv]
+    · by_cases hv : s.V > bound s
+      · rw [step_exit_retire s h.fx i hi hv]; rfl
+      · rw [step_exit_release s h.fx i hi hv]
         exact (exit_release_spec s i h hi).queue
     · rw [step_exit_bad s i hi]; rfl
 
-/-- **Nobody waits while no handler runs** (limits ≥ 1): at every quiescent point, if there are
-waiters then all `V ≥ 1` permits are held. -/
-theorem no_starvation (n : Nat) (hn : 1 ≤ n) (ops : List Op) (ht : targetsGE1 ops) :
+/-- **Nobody waits while no handler runs** — for all targets, also ≤ 0: at every quiescent point,
+if there are waiters then all `V ≥ 1` permits are held (so some holder exists whose exit will
+move the queue). -/
+theorem no_starvation (n : Int) (ops : List Op) :
     let s := (run (init n) ops).1
     (s.waiters ≠ [] → (s.holders.length : Int) = s.V ∧ s.holders ≠ []) ∧
     (s.holders = [] → s.waiters = []) := by
   have i := run_inv ops _ (init_inv n)
-  have p := run_pos ops _ (init_inv n) (init_pos n hn) ht
-  have hc := i.cons; have hl := p.no_leak; have hv := p.V_pos
+  have hc := i.cons; have hv := i.V_pos
   have key : (run (init n) ops).1.waiters ≠ [] →
       ((run (init n) ops).1.holders.length : Int) = (run (init n) ops).1.V ∧
       (run (init n) ops).1.holders ≠ [] := by
     intro hw
     have h0 := i.wait_S hw
-    refine ⟨by rw [hl] at hc; simp at hc; omega, ?_⟩
-    intro hh; rw [hh, hl, h0] at hc; simp at hc; omega
+    refine ⟨by omega, ?_⟩
+    intro hh; rw [hh, h0] at hc; simp at hc; omega
   refine ⟨key, ?_⟩
   intro hh
   cases hw : (run (init n) ops).1.waiters with
   | nil => rfl
   | cons a b => exact absurd hh (key (by simp [hw])).2
 
-/-- **Every waiter is served after finitely many exits** (ranking function).  In a reachable state
-with limits ≥ 1 and somebody waiting, each exit of a holder either retires one unit of excess
-capacity or admits at least the head of the queue: `|admitted| + excess` strictly exceeds the new
-excess, where `excess = (V − T)⁺`.  Together with `fifo_admission` (a waiter at position `p`
-moves to `p − |admitted|` or is admitted) the rank `p + 1 + excess` of every waiter strictly
-decreases with every exit, and by `no_starvation` there is always a holder to exit. -/
-theorem exit_progress (s : Lim) (h : Inv s) (p : Pos s) (i : Nat) (hi : i ∈ s.holders)
+/-- the full statement as a predicate of the start state -/
+def no_starvation_full (start : Lim) : Prop :=
+  ∀ ops : List Op, (run start ops).1.holders = [] → (run start ops).1.waiters = []
+
+theorem no_starvation_repaired (n : Int) : no_starvation_full (init n) :=
+  fun ops => (no_starvation n ops).2
+
+/-- **F23 (pinned class)**: two holders, two queued, the limit goes to 0, the holders leave:
+the queued tasks wait for ever although nobody holds a permit (they are neither admitted nor
+refused) — and stay there after the limit is raised again. -/
+theorem no_starvation_fails_pinned : ¬ no_starvation_full (initPinned 2) := by
+  intro h
+  have := h [.enter 0, .enter 1, .enter 2, .enter 3, .setTarget 0, .exit 0, .exit 1,
+             .setTarget 2, .enter 4] (by decide)
+  revert this
+  decide
+
+/-- **Every exit makes progress for the queue** (ranking function), for all targets.  In a
+reachable state with somebody waiting, each exit of a holder either retires one unit of excess
+capacity or admits (lets in, or — at a limit ≤ 0 — refuses) at least the head of the queue:
+`|admitted| + excess` strictly exceeds the new excess, where `excess = (V − max T 1)⁺`. -/
+theorem exit_progress (s : Lim) (h : Inv s) (i : Nat) (hi : i ∈ s.holders)
     (hw : s.waiters ≠ []) :
     let r := step s (.exit i)
     ids r.2 ++ r.1.waiters = s.waiters ∧ r.1.T = s.T ∧
-    (r.1.V - r.1.T).toNat + 1 ≤ (ids r.2).length + (s.V - s.T).toNat := by
-  by_cases hv : s.V > s.T
-  · rw [step_exit_retire s i hi hv]
+    (r.1.V - bound r.1).toNat + 1 ≤ (ids r.2).length + (s.V - bound s).toNat := by
+  have hvp := h.V_pos
+  by_cases hv : s.V > bound s
+  · rw [step_exit_retire s h.fx i hi hv]
     refine ⟨rfl, rfl, ?_⟩
-    simp only [ids_nil, List.length_nil]; omega
-  · rw [step_exit_release s i hi hv]
+    simp only [ids_nil, List.length_nil, bound] at hv ⊢; omega
+  · rw [step_exit_release s h.fx i hi hv]
     have e := exit_release_spec s i h hi
-    have hT : 0 < s.T := by have := p.T_pos; omega
     obtain ⟨h1, h2⟩ := e.progress hw
-    have hV := h2 hT
     refine ⟨e.queue, e.T, ?_⟩
     have : 1 ≤ (ids (finish (release ⟨{ s with holders := s.holders.erase i }, [], []⟩)).2).length := by
       cases hh : ids (finish (release ⟨{ s with holders := s.holders.erase i }, [], []⟩)).2 with
       | nil => exact absurd hh h1
       | cons a b => simp
-    rw [hV, e.T]; omega
+    have hb : bound (finish (release ⟨{ s with holders := s.holders.erase i }, [], []⟩)).1 = bound s := by
+      unfold bound; rw [e.T]
+    rw [hb]
+    unfold bound at hv ⊢
+    by_cases hT : 0 < s.T
+    · rw [h2 hT]; omega
+    · rw [e.V_same (by omega)]; omega
 
 /-- every op of the list is the exit of a task that holds a permit at that moment -/
 def exitsOnly (s : Lim) : List Op → Prop
@@ -438,17 +459,17 @@ def exitsOnly (s : Lim) : List Op → Prop
   | .exit i :: ops => i ∈ s.holders ∧ exitsOnly (step s (.exit i)).1 ops
   | _ :: _ => False
 
-theorem served_within_aux (ops : List Op) : ∀ (s : Lim), Inv s → Pos s → exitsOnly s ops →
+theorem served_within_aux (ops : List Op) : ∀ (s : Lim), Inv s → exitsOnly s ops →
     ids (run s ops).2 ++ (run s ops).1.waiters = s.waiters ∧
-    min (s.waiters.length : Int) ((ops.length : Int) - (s.V - s.T).toNat)
+    min (s.waiters.length : Int) ((ops.length : Int) - (s.V - bound s).toNat)
       ≤ (ids (run s ops).2).length := by
   induction ops with
   | nil =>
-    intro s _ _ _
+    intro s _ _
     simp only [run, ids_nil, List.nil_append, List.length_nil]
     exact ⟨trivial, by omega⟩
   | cons op ops ih =>
-    intro s h p he
+    intro s h he
     cases op with
     | enter i => exact absurd he (by simp [exitsOnly])
     | cancelWaiter i => exact absurd he (by simp [exitsOnly])
@@ -456,8 +477,7 @@ theorem served_within_aux (ops : List Op) : ∀ (s : Lim), Inv s → Pos s → e
     | exit i =>
       obtain ⟨hi, he'⟩ := he
       have f := step_facts s (.exit i) h
-      have p' := step_pos s (.exit i) h p (by intro n hn; cases hn)
-      obtain ⟨q2, l2⟩ := ih _ f.inv p' he'
+      obtain ⟨q2, l2⟩ := ih _ f.inv he'
       have q1 : ids (step s (.exit i)).2 ++ (step s (.exit i)).1.waiters = s.waiters :=
         fifo_admission s h (.exit i)
       simp only [run, ids_append, List.length_append, List.length_cons]
@@ -466,19 +486,20 @@ theorem served_within_aux (ops : List Op) : ∀ (s : Lim), Inv s → Pos s → e
       simp only [List.length_append] at hlen
       by_cases hw : s.waiters = []
       · simp only [hw, List.length_nil]; omega
-      · have pr := (exit_progress s h p i hi hw).2.2
+      · have pr := (exit_progress s h i hi hw).2.2
         omega
 
-/-- **All waiters are eventually served — with a bound** (limits ≥ 1).  From any reachable state,
-let only holders leave (any holders, in any order; no new arrivals are needed and none can
+/-- **All waiters are eventually served — with a bound**, for all targets.  From any reachable
+state, let only holders leave (any holders, in any order; no new arrivals are needed and none can
 overtake — `fifo_admission`): after `n` such exits at least `min(|waiters|, n − excess)` waiters
-have been admitted, in queue order, where `excess = (V − T)⁺` is the capacity still to be retired
-after a reduction.  Hence the waiter at position `p` is admitted after at most `p + 1 + excess`
-exits, and by `no_starvation` a holder that can exit always exists while somebody waits. -/
-theorem served_within (s : Lim) (h : Inv s) (p : Pos s) (ops : List Op) (he : exitsOnly s ops)
-    (k : Nat) (hk : k < s.waiters.length) (hn : k + 1 + (s.V - s.T).toNat ≤ ops.length) :
+have been admitted — let in, or refused when the limit is ≤ 0 — in queue order, where
+`excess = (V − max T 1)⁺` is the capacity still to be retired after a reduction.  Hence the waiter
+at position `p` is dealt with after at most `p + 1 + excess` exits, and by `no_starvation` a holder
+that can exit always exists while somebody waits. -/
+theorem served_within (s : Lim) (h : Inv s) (ops : List Op) (he : exitsOnly s ops)
+    (k : Nat) (hk : k < s.waiters.length) (hn : k + 1 + (s.V - bound s).toNat ≤ ops.length) :
     ∃ x, s.waiters[k]? = some x ∧ (ids (run s ops).2)[k]? = some x := by
-  obtain ⟨q, l⟩ := served_within_aux ops s h p he
+  obtain ⟨q, l⟩ := served_within_aux ops s h he
   have hlen : k < (ids (run s ops).2).length := by omega
   refine ⟨s.waiters[k], by simp [hk], ?_⟩
   have : s.waiters[k]? = (ids (run s ops).2 ++ (run s ops).1.waiters)[k]? := by rw [q]
@@ -488,16 +509,19 @@ theorem served_within (s : Lim) (h : Inv s) (p : Pos s) (ops : List Op) (he : ex
 /-- operations other than exits and `set_target` never push a waiter back: the excess does not
 grow (the queue part is `fifo_admission`). -/
 theorem rank_no_regress (s : Lim) (h : Inv s) (op : Op) (hop : op.isSetTarget = false) :
-    ((step s op).1.V - (step s op).1.T).toNat ≤ (s.V - s.T).toNat := by
+    ((step s op).1.V - bound (step s op).1).toNat ≤ (s.V - bound s).toNat := by
   have f := step_facts s op h
   have := f.V_le hop; have := f.T hop
+  unfold bound
   omega
 
 /-- **A limit of zero or less refuses entry**: while `T ≤ 0` no step lets anybody into the block,
 and a task that gets the permit is refused (`ExcessiveSessionCostError`). -/
 theorem zero_refuses (s : Lim) (h : Inv s) (hT : s.T ≤ 0) (op : Op) (hop : op.isSetTarget = false) :
     (∀ j, Ev.entered j ∉ (step s op).2) ∧
-    (∀ i, op = .enter i → s.S ≠ 0 → s.waiters = [] → (step s op).2 = [Ev.refused i]) := by
+    (∀ i, op = .enter i → s.S ≠ 0 → s.waiters = [] →
+      (step s op).2 = [Ev.refused i] ∧ (step s op).1.holders = s.holders ∧
+      (step s op).1.V = s.V) := by
   refine ⟨?_, ?_⟩
   · intro j hj
     cases op with
@@ -507,28 +531,239 @@ theorem zero_refuses (s : Lim) (h : Inv s) (hT : s.T ≤ 0) (op : Op) (hop : op.
       · rw [step_cancel s i hi] at hj; simp at hj
       · rw [step_cancel_bad s i hi] at hj; simp at hj
     | enter i =>
-      by_cases hl : s.S = 0 ∨ s.waiters ≠ []
+      rcases enter_cases s with hl | ⟨h1, h2⟩
       · rw [step_enter_wait s i hl] at hj; simp at hj
-      · have h1 : s.S ≠ 0 := fun hh => hl (Or.inl hh)
-        have h2 : s.waiters = [] := by
-          cases hh : s.waiters with
-          | nil => rfl
-          | cons a b => exact absurd (Or.inr (by simp [hh])) hl
-        rw [step_enter_now s i h1 h2] at hj
-        rw [((enter_now_spec s i h h1 h2).nonpos hT).2] at hj
+      · rw [step_enter_now s i h1 h2] at hj
+        rw [((enter_now_spec s i h h1 h2).nonpos hT).2.1] at hj
         simp at hj
     | exit i =>
       by_cases hi : i ∈ s.holders
-      · by_cases hv : s.V > s.T
-        · rw [step_exit_retire s i hi hv] at hj; simp at hj
-        · rw [step_exit_release s i hi hv] at hj
+      · by_cases hv : s.V > bound s
+        · rw [step_exit_retire s h.fx i hi hv] at hj; simp at hj
+        · rw [step_exit_release s h.fx i hi hv] at hj
           obtain ⟨k, hk⟩ := (exit_release_spec s i h hi).evs.2 hT _ hj
           cases hk
       · rw [step_exit_bad s i hi] at hj; simp at hj
   · intro i hop' h1 h2
     subst hop'
     rw [step_enter_now s i h1 h2]
-    exact ((enter_now_spec s i h h1 h2).nonpos hT).2
+    have e := (enter_now_spec s i h h1 h2).nonpos hT
+    exact ⟨e.2.1, e.2.2, e.1⟩
+
+/-- what the exit of a holder does while the limit is ≤ 0: it retires a unit of capacity while
+more than the last permit is out; the exit that returns the last permit refuses **every** waiter,
+in arrival order, and leaves nobody waiting -/
+theorem exit_at_zero (s : Lim) (h : Inv s) (hT : s.T ≤ 0) (i : Nat) (hi : i ∈ s.holders) :
+    let r := step s (.exit i)
+    r.1.T = s.T ∧ r.1.holders = s.holders.erase i ∧
+    (∀ x ∈ r.2, ∃ j, x = Ev.refused j) ∧
+    (1 < s.V → r.2 = [] ∧ r.1.waiters = s.waiters) ∧
+    (s.V = 1 → ids r.2 = s.waiters ∧ r.1.waiters = []) := by
+  have hvp := h.V_pos
+  have hb : bound s = 1 := by unfold bound; omega
+  by_cases hv : s.V > bound s
+  · rw [step_exit_retire s h.fx i hi hv]
+    refine ⟨rfl, rfl, by simp, fun _ => ⟨rfl, rfl⟩, fun h1 => by omega⟩
+  · rw [step_exit_release s h.fx i hi hv]
+    have e := exit_release_spec s i h hi
+    refine ⟨e.T, e.H_nonpos hT, e.evs.2 hT, fun h1 => by omega, ?_⟩
+    intro hV1
+    have hw : (finish (release ⟨{ s with holders := s.holders.erase i }, [], []⟩)).1.waiters = [] := by
+      cases hh : (finish (release ⟨{ s with holders := s.holders.erase i }, [], []⟩)).1.waiters with
+      | nil => rfl
+      | cons a b =>
+        exfalso
+        have h0 := e.inv.wait_S (by simp [hh])
+        have hc := e.inv.cons
+        have hV := e.V_same (by omega)
+        rw [e.H_nonpos hT, erase_mem_length _ _ hi] at hc
+        have := h.cons; have := h.S_nonneg
+        have := List.length_pos_of_mem hi
+        omega
+    have q := e.queue
+    rw [hw, List.append_nil] at q
+    exact ⟨q, hw⟩
+
+theorem refused_at_zero_aux (ops : List Op) : ∀ (s : Lim), Inv s → s.T ≤ 0 → exitsOnly s ops →
+    (s.waiters ≠ [] → ops.length = s.holders.length) →
+    (ops.length ≤ s.holders.length) →
+    (∀ x ∈ (run s ops).2, ∃ j, x = Ev.refused j) ∧
+    (s.waiters ≠ [] → ids (run s ops).2 = s.waiters ∧ (run s ops).1.waiters = []) := by
+  induction ops with
+  | nil =>
+    intro s h hT _ hlen _
+    refine ⟨by simp [run], ?_⟩
+    intro hw
+    -- somebody waits, so all V ≥ 1 permits are held: there is a holder, contradiction
+    have hl0 : (0 : Nat) = s.holders.length := hlen hw
+    have h0 := h.wait_S hw; have := h.cons; have := h.V_pos
+    omega
+  | cons op ops ih =>
+    intro s h hT he hlen hle
+    cases op with
+    | enter i => exact absurd he (by simp [exitsOnly])
+    | cancelWaiter i => exact absurd he (by simp [exitsOnly])
+    | setTarget n => exact absurd he (by simp [exitsOnly])
+    | exit i =>
+      obtain ⟨hi, he'⟩ := he
+      have f := step_facts s (.exit i) h
+      obtain ⟨eT, eH, eR, eBig, eOne⟩ := exit_at_zero s h hT i hi
+      have hlenE := erase_mem_length s.holders i hi
+      have hc := h.cons; have hS := h.S_nonneg; have hvp := h.V_pos
+      simp only [List.length_cons] at hlen hle
+      have ih' := ih (step s (.exit i)).1 f.inv (by rw [eT]; exact hT) he'
+      simp only [run]
+      by_cases hw : s.waiters = []
+      · -- nobody waits: only the refusal-shape of the events is claimed
+        have hnow : (step s (.exit i)).1.waiters = [] := by
+          by_cases hV : 1 < s.V
+          · rw [(eBig hV).2]; exact hw
+          · exact (eOne (by omega)).2
+        have r := ih' (by intro hne; exact absurd hnow hne) (by rw [eH]; omega)
+        refine ⟨?_, fun hne => absurd hw hne⟩
+        intro x hx
+        rcases List.mem_append.1 hx with hx | hx
+        · exact eR x hx
+        · exact r.1 x hx
+      · have hS0 := h.wait_S hw
+        have hl := hlen hw
+        by_cases hV : 1 < s.V
+        · obtain ⟨e1, e2⟩ := eBig hV
+          have r := ih' (by intro _; rw [eH]; omega) (by rw [eH]; omega)
+          have r2 := r.2 (by rw [e2]; exact hw)
+          refine ⟨?_, fun _ => ?_⟩
+          · intro x hx
+            rcases List.mem_append.1 hx with hx | hx
+            · exact eR x hx
+            · exact r.1 x hx
+          · rw [e1, List.nil_append, r2.1, e2]; exact ⟨rfl, r2.2⟩
+        · have hV1 : s.V = 1 := by omega
+          obtain ⟨e1, e2⟩ := eOne hV1
+          -- this was the last holder, so no op is left
+          have hops : ops = [] := by
+            cases ops with
+            | nil => rfl
+            | cons a b => simp only [List.length_cons] at hl; omega
+          subst hops
+          simp only [run, List.append_nil]
+          exact ⟨eR, fun _ => ⟨e1, e2⟩⟩
+
+/-- **Refused at zero — nobody is left waiting** (F23).  From any reachable state with a limit
+≤ 0: let the holders leave (all of them, any order).  Every task that was waiting is refused
+(`ExcessiveSessionCostError`), in arrival order, none is let in, and none is left waiting — so at
+session level every queued request gets its −101 instead of timing out. -/
+theorem refused_at_zero (s : Lim) (h : Inv s) (hT : s.T ≤ 0) (ops : List Op)
+    (he : exitsOnly s ops) (hall : ops.length = s.holders.length) :
+    ids (run s ops).2 = s.waiters ∧ (run s ops).1.waiters = [] ∧
+    (∀ x ∈ (run s ops).2, ∃ j, x = Ev.refused j) := by
+  obtain ⟨r1, r2⟩ := refused_at_zero_aux ops s h hT he (fun _ => hall) (by omega)
+  by_cases hw : s.waiters = []
+  · refine ⟨?_, ?_, r1⟩
+    · -- only refusals of queued tasks can occur, and the queue is empty
+      have q := (served_within_aux ops s h he).1
+      rw [hw] at q
+      rw [hw]; exact (List.append_eq_nil_iff.1 q).1
+    · have q := (served_within_aux ops s h he).1
+      rw [hw] at q
+      exact (List.append_eq_nil_iff.1 q).2
+  · exact ⟨(r2 hw).1, (r2 hw).2, r1⟩
+
+theorem exitsOnly_noSetTarget (ops : List Op) : ∀ (s : Lim), exitsOnly s ops → noSetTarget ops := by
+  induction ops with
+  | nil => intro _ _; trivial
+  | cons op ops ih =>
+    intro s he
+    cases op with
+    | exit i => exact ⟨rfl, ih _ he.2⟩
+    | enter i => exact absurd he (by simp [exitsOnly])
+    | cancelWaiter i => exact absurd he (by simp [exitsOnly])
+    | setTarget n => exact absurd he (by simp [exitsOnly])
+
+/-- while the limit is ≤ 0 nobody gets in, so every exit shortens the list of holders -/
+theorem exits_at_zero (ops : List Op) : ∀ (s : Lim), Inv s → s.T ≤ 0 → exitsOnly s ops →
+    (run s ops).1.T = s.T ∧ (run s ops).1.holders.length + ops.length = s.holders.length := by
+  induction ops with
+  | nil => intro s _ _ _; exact ⟨rfl, by simp [run]⟩
+  | cons op ops ih =>
+    intro s h hT he
+    cases op with
+    | enter i => exact absurd he (by simp [exitsOnly])
+    | cancelWaiter i => exact absurd he (by simp [exitsOnly])
+    | setTarget n => exact absurd he (by simp [exitsOnly])
+    | exit i =>
+      obtain ⟨hi, he'⟩ := he
+      obtain ⟨eT, eH, _, _, _⟩ := exit_at_zero s h hT i hi
+      have r := ih (step s (.exit i)).1 (step_inv s _ h) (by rw [eT]; exact hT) he'
+      have hl := List.length_erase_of_mem hi
+      have hp := List.length_pos_of_mem hi
+      simp only [run, List.length_cons]
+      rw [eH] at r
+      exact ⟨by rw [r.1, eT], by omega⟩
+
+/-- the full statement as a predicate of a start state and a history leading to a limit ≤ 0 -/
+def refused_at_zero_full (start : Lim) : Prop :=
+  ∀ pre ops : List Op, let s := (run start pre).1
+    s.T ≤ 0 → exitsOnly s ops → ops.length = s.holders.length → (run s ops).1.waiters = []
+
+theorem refused_at_zero_repaired (n : Int) : refused_at_zero_full (init n) :=
+  fun pre ops hT he hall => (refused_at_zero _ (run_inv pre _ (init_inv n)) hT ops he hall).2.1
+
+theorem refused_at_zero_fails_pinned : ¬ refused_at_zero_full (initPinned 2) := by
+  intro h
+  have := h [.enter 0, .enter 1, .enter 2, .enter 3, .setTarget 0] [.exit 0, .exit 1]
+    (by decide) ⟨by decide, by decide, trivial⟩ (by decide)
+  revert this
+  decide
+
+/-- an entry while nobody holds a permit and the limit is positive gets in at once and tops the
+permits up to the limit -/
+theorem enter_free (s : Lim) (h : Inv s) (hh : s.holders = []) (hT : 0 < s.T) (i : Nat) :
+    (step s (.enter i)).2 = [Ev.entered i] ∧ (step s (.enter i)).1.V = max s.V s.T ∧
+    (step s (.enter i)).1.S = max s.V s.T - 1 ∧ (step s (.enter i)).1.holders = [i] := by
+  have hc := h.cons; have hvp := h.V_pos
+  rw [hh] at hc
+  simp only [List.length_nil] at hc
+  have hw : s.waiters = [] := by
+    cases hw : s.waiters with
+    | nil => rfl
+    | cons a b => have := h.wait_S (by simp [hw]); omega
+  have h1 : s.S ≠ 0 := by omega
+  rw [step_enter_now s i h1 hw]
+  have e := enter_now_spec s i h h1 hw
+  generalize finish (admitTask i ⟨{ s with S := s.S - 1 }, [], []⟩) = r at e
+  obtain ⟨p1, p2, p3⟩ := e.pos hT
+  have hc' := e.inv.cons
+  rw [p3, hh] at hc'
+  refine ⟨p2, p1, ?_, by rw [p3, hh]; rfl⟩
+  simp only [List.nil_append, List.length_singleton] at hc'
+  omega
+
+/-- **The limiter recovers after the limit is raised again** (F23).  In any reachable state in
+which nobody holds a permit — e.g. after the limit was ≤ 0 and every request was refused —
+`set_target(n ≥ 1)` followed by one entry lets that task in at once and tops the permits up to
+the new limit: capacity `max V n`, of which all but the one just taken are free for the next
+entrants. -/
+theorem recovers_after_raise (s : Lim) (h : Inv s) (hh : s.holders = []) (n : Int) (hn : 1 ≤ n)
+    (i : Nat) :
+    let r := step (step s (.setTarget n)).1 (.enter i)
+    r.2 = [Ev.entered i] ∧ r.1.V = max s.V n ∧ r.1.S = max s.V n - 1 ∧ r.1.holders = [i] :=
+  enter_free (step s (.setTarget n)).1 (step_inv s _ h) hh (by show 0 < n; omega) i
+
+/-- the full statement as a predicate of the start state -/
+def recovers_after_raise_full (start : Lim) : Prop :=
+  ∀ (pre : List Op) (n : Int) (i : Nat), let s := (run start pre).1
+    s.holders = [] → 1 ≤ n → (step (step s (.setTarget n)).1 (.enter i)).2 = [Ev.entered i]
+
+theorem recovers_after_raise_repaired (k : Int) : recovers_after_raise_full (init k) :=
+  fun pre n i hh hn => (recovers_after_raise _ (run_inv pre _ (init_inv k)) hh n hn i).1
+
+/-- **F23 (pinned class)**: `Concurrency(2)`: enter, enter, `set_target(0)`, exit, exit,
+`set_target(2)`, enter — the late entrant blocks for ever (V = S = 0). -/
+theorem recovers_after_raise_fails_pinned : ¬ recovers_after_raise_full (initPinned 2) := by
+  intro h
+  have := h [.enter 0, .enter 1, .setTarget 0, .exit 0, .exit 1] 2 5 (by decide) (by decide)
+  revert this
+  decide
 
 /-! ## session layer: `unanswered_request_count` -/
 
@@ -547,49 +782,68 @@ def Sess.run (s : Sess) : List SessOp → Sess
   | [] => s
   | op :: ops => Sess.run (s.step op) ops
 
+def recvs : List SessOp → Nat
+  | [] => 0
+  | .recv :: r => recvs r + 1
+  | _ :: r => recvs r
+
+def finishes : List SessOp → Nat
+  | [] => 0
+  | .finish :: r => finishes r + 1
+  | _ :: r => finishes r
+
+/-- a history of a live session: the loop task does not end, and a task can only finish if one
+is active -/
+def Sess.wf (s : Sess) : List SessOp → Prop
+  | [] => True
+  | .recv :: r => Sess.wf (s.step .recv) r
+  | .finish :: r => 0 < s.active ∧ Sess.wf (s.step .finish) r
+  | .loopExit :: _ => False
+
+theorem unanswered_run (ops : List SessOp) : ∀ (s : Sess), s.loopAlive = true → s.wf ops →
+    (Sess.run s ops).loopAlive = true ∧
+    (Sess.run s ops).active + finishes ops = s.active + recvs ops := by
+  induction ops with
+  | nil => intro s h _; exact ⟨h, rfl⟩
+  | cons op ops ih =>
+    intro s h hw
+    cases op with
+    | recv =>
+      have hs : s.step .recv = { s with active := s.active + 1 } := by simp [Sess.step, h]
+      have := ih (s.step .recv) (by rw [hs]; exact h) hw
+      simp only [Sess.run, recvs, finishes]
+      rw [hs] at this ⊢
+      refine ⟨this.1, ?_⟩
+      have h2 := this.2
+      simp only [] at h2
+      omega
+    | finish =>
+      obtain ⟨hpos, hw'⟩ := hw
+      have hs : s.step .finish = { s with active := s.active - 1 } := rfl
+      have := ih (s.step .finish) (by rw [hs]; exact h) hw'
+      simp only [Sess.run, recvs, finishes]
+      rw [hs] at this ⊢
+      refine ⟨this.1, ?_⟩
+      have h2 := this.2
+      simp only [] at h2
+      omega
+    | loopExit => exact absurd hw (by simp [Sess.wf])
+
 /-- **Unanswered-request count** (session layer; partial: the TaskGroup bookkeeping
-`_pending` = live member tasks is C09's invariant and is assumed here).  While the message loop is
-alive, `max(0, len(_pending) − 1)` is exactly the number of spawned request/notification tasks
-that have not finished, after any history. -/
-theorem unanswered_count (ops : List SessOp) :
-    let s := Sess.run ⟨true, 0⟩ ops
-    s.loopAlive = true → s.unanswered = s.active := by
-  intro s h
-  simp [Sess.unanswered, Sess.pending, h]
+`_pending` = live member tasks is C09's invariant and is assumed here).  For every history of a
+live session (requests/notifications received, handler tasks finishing — only tasks that exist
+can finish): `max(0, len(_pending) − 1)` equals the number of received requests and notifications
+minus the number whose handling has finished. -/
+theorem unanswered_count (ops : List SessOp) (hw : (Sess.mk true 0).wf ops) :
+    (Sess.run ⟨true, 0⟩ ops).unanswered + finishes ops = recvs ops ∧ finishes ops ≤ recvs ops := by
+  obtain ⟨h1, h2⟩ := unanswered_run ops ⟨true, 0⟩ rfl hw
+  simp only [Sess.unanswered, Sess.pending, h1, ↓reduceIte] at *
+  omega
 
 /-- what the formula gives once the loop task is gone (only between connection loss and the
 cancellation of the remaining handlers — never at a quiescent point of a live session) -/
 theorem unanswered_after_loop_exit (a : Nat) : (Sess.mk false a).unanswered = a - 1 := by
   simp [Sess.unanswered, Sess.pending]
-
-/-! ## tie to the source (facts regenerated from /repo on every run) -/
-
-theorem facts_initial : Facts.C13.initialConcurrent = 20 ∧ Facts.C13.outgoingInitial = 50 := by
-  decide
-/-- the shape of `Concurrency` the model mirrors (per-path symbolic normal forms, `a0` = the
-argument): `__aenter__` acquires first, then retargets; refusal test `_target <= 0`; growth loop
-`_sem_value < _target` doing `+= 1; release()`; `__aexit__` retires (`-= 1`) when
-`_sem_value > _target`, otherwise releases; `set_target` only stores the value. -/
-theorem facts_shape :
-    Facts.C13.aenterPaths = ["when always: do _semaphore.acquire(); do _retarget_semaphore()"] ∧
-    Facts.C13.refuseTest = "_target LtE 0" ∧
-    Facts.C13.refuseRaises = "ExcessiveSessionCostError" ∧
-    Facts.C13.retargetShape = ["If", "While"] ∧
-    Facts.C13.growTest = "_sem_value Lt _target" ∧
-    Facts.C13.growBody = ["_sem_value += 1", "release"] ∧
-    Facts.C13.aexitPaths = ["when _sem_value Gt _target: _sem_value := _sem_value - 1",
-                            "when _sem_value LtE _target: do _semaphore.release()"] ∧
-    Facts.C13.setTargetPaths = ["when always: _target := int(a0)"] ∧
-    Facts.C13.maxConcurrentPaths = ["when always: ; return _target"] ∧
-    Facts.C13.initPaths = ["when always: _sem_value := int(a0); _semaphore := asyncio.Semaphore(int(a0)); _target := int(a0)"] :=
-  ⟨rfl, rfl, rfl, rfl, rfl, rfl, rfl, rfl, rfl, rfl⟩
-/-- the handler runs inside `async with self._incoming_concurrency` in both session classes, and
-the count formula is `max(0, len(_pending) - 1)` -/
-theorem facts_session :
-    Facts.C13.throttledRequestGuard = "_incoming_concurrency" ∧
-    Facts.C13.throttledMessageGuard = "_incoming_concurrency" ∧
-    Facts.C13.unansweredPaths = ["when always: ; return max(0, len(_group._pending) - 1)"] :=
-  ⟨rfl, rfl, rfl⟩
 
 /-! ## non-vacuity -/
 
@@ -597,15 +851,30 @@ theorem facts_session :
 example : (run (init 2) [.enter 0, .enter 1, .enter 2, .setTarget 3, .enter 3, .exit 0]).2
     = [.entered 0, .entered 1, .entered 2, .entered 3] := by decide
 example : (run (init 2) [.enter 0, .enter 1, .enter 2, .setTarget 3, .enter 3, .exit 0]).1
-    = ⟨3, 3, 0, 0, [1, 2, 3], []⟩ := by decide
+    = ⟨3, 3, 0, 0, [1, 2, 3], [], true⟩ := by decide
 -- reduction: V₀ = 3, target 1, two exits ⇒ capacity 1
 example : (run (init 3) [.enter 0, .enter 1, .enter 2, .setTarget 1, .exit 0, .exit 1, .enter 3]).1
-    = ⟨1, 1, 0, 0, [2], [3]⟩ := by decide
+    = ⟨1, 1, 0, 0, [2], [3], true⟩ := by decide
 example : exitsDone (step (run (init 3) [.enter 0, .enter 1, .enter 2]).1 (.setTarget 1)).1
     [.exit 0, .exit 1, .enter 3] = 2 := by decide
--- zero refuses, and the permit is not given back
+-- zero refuses, the permit is handed back, and the limiter recovers (repaired class) …
 example : run (init 1) [.setTarget 0, .enter 0, .setTarget 1, .enter 1]
-    = (⟨1, 1, 0, 1, [], [1]⟩, [.refused 0]) := by decide
+    = (⟨1, 1, 0, 0, [1], [], true⟩, [.refused 0, .entered 1]) := by decide
+-- … whereas the pinned class keeps the permit and the next entrant blocks for ever
+example : run (initPinned 1) [.setTarget 0, .enter 0, .setTarget 1, .enter 1]
+    = (⟨1, 1, 0, 1, [], [1], false⟩, [.refused 0]) := by decide
+-- an initial limit of 0 refuses, and a later raise works
+example : run (init 0) [.enter 0, .setTarget 2, .enter 1, .enter 2]
+    = (⟨2, 2, 0, 0, [1, 2], [], true⟩, [.refused 0, .entered 1, .entered 2]) := by decide
+-- F23 scenario on the repaired class: the queued tasks are refused in order when the last holder
+-- leaves; after the raise the late entrant gets in and the capacity is back to 2
+example : run (init 2) [.enter 0, .enter 1, .enter 2, .enter 3, .setTarget 0, .exit 0, .exit 1,
+      .setTarget 2, .enter 4]
+    = (⟨2, 2, 1, 0, [4], [], true⟩,
+       [.entered 0, .entered 1, .refused 2, .refused 3, .entered 4]) := by decide
+-- hypotheses of `refused_at_zero` are satisfiable
+example : exitsOnly (run (init 2) [.enter 0, .enter 1, .enter 2, .enter 3, .setTarget 0]).1
+    [.exit 0, .exit 1] := ⟨by decide, by decide, trivial⟩
 -- `served_within`: after a reduction 3 → 1 with three holders and two waiters, the first waiter
 -- (position 0) needs 0 + 1 + excess 2 = 3 exits
 example : exitsOnly (run (init 3) [.enter 0, .enter 1, .enter 2, .enter 3, .enter 4, .setTarget 1]).1
@@ -614,8 +883,10 @@ example : exitsOnly (run (init 3) [.enter 0, .enter 1, .enter 2, .enter 3, .ente
       [.exit 0, .exit 1, .exit 2]).2 = [.entered 3] :=
   ⟨⟨by decide, by decide, by decide, trivial⟩, by decide⟩
 -- hypotheses of `exit_progress` are satisfiable
-example : Pos (run (init 1) [.enter 0, .enter 1]).1 ∧ (run (init 1) [.enter 0, .enter 1]).1.waiters ≠ [] :=
-  ⟨⟨by decide, by decide, by decide⟩, by decide⟩
-example : (Sess.run ⟨true, 0⟩ [.recv, .recv, .finish, .recv]).unanswered = 2 := by decide
+example : (run (init 1) [.enter 0, .enter 1]).1.waiters ≠ [] ∧ 0 ∈ (run (init 1) [.enter 0, .enter 1]).1.holders :=
+  ⟨by decide, by decide⟩
+example : (Sess.run ⟨true, 0⟩ [.recv, .recv, .finish, .recv]).unanswered = 2 ∧
+    (Sess.mk true 0).wf [.recv, .recv, .finish, .recv] :=
+  ⟨by decide, by simp [Sess.wf, Sess.step]⟩
 
 end Aiorpcx.C13
